@@ -81,6 +81,7 @@ type Witness struct {
 	Model    map[string]string `json:"model"`
 	Covers   []string          `json:"covers"`
 	Violated bool              `json:"violated"`
+	UFDep    bool              `json:"uf_dependent,omitempty"`
 }
 
 type PathSample struct {
@@ -385,6 +386,7 @@ func (in *Interp) runPath(fn *ssa.Function, prefix []decision, baseCfg *HarnessC
 	in.pcKey = [32]byte{}
 	in.ctx = &decisionCtx{prefix: prefix}
 	in.hasUnknown = false
+	in.pathUF = false
 	in.steps = 0
 	in.callDepth = 0
 	in.nameCount = map[string]int{}
@@ -440,7 +442,7 @@ func (in *Interp) runPath(fn *ssa.Function, prefix []decision, baseCfg *HarnessC
 			res.witSigs[sig] = true
 			if sol.Check() == Sat {
 				if m, ok := in.modelStrings(); ok {
-					res.Witnesses = append(res.Witnesses, Witness{Model: m, Covers: append([]string{}, in.pathCovers...), Violated: in.pathViolations > 0})
+					res.Witnesses = append(res.Witnesses, Witness{Model: m, Covers: append([]string{}, in.pathCovers...), Violated: in.pathViolations > 0, UFDep: in.pathUF})
 				}
 			}
 		}
